@@ -272,6 +272,21 @@ def replay_element(symbol: str, witness: Dict[str, Any]):
                 v = dflt[k] * math.exp(rng.uniform(math.log(0.3), math.log(3.0)))
                 vals[k] = min(max(v, lo[k]), up[k])
         pts.append((vals, [10 ** rng.uniform(-2, 4) for _ in range(5)]))
+    # corners and edges of the limit box (infinite limits: three decades around the default), frequencies over nine decades
+    import itertools
+    grid = {}
+    for k in keys:
+        d = dflt[k]
+        a = lo[k] if math.isfinite(lo[k]) else (d / 1e3 if d > 0 else d - 1e3)
+        b = up[k] if math.isfinite(up[k]) else (d * 1e3 if d > 0 else d + 1e3)
+        if a == 0.0 and d > 0:
+            a = min(d / 1e3, b / 1e3)                   # the open end of a (0, b] box
+        grid[k] = sorted({a, d, b})
+    corners = list(itertools.product(*[grid[k] for k in keys]))
+    rng.shuffle(corners)
+    wide = [10 ** x for x in (-3, -1.5, 0, 1, 2, 3, 4, 5, 6)]
+    for c in corners[:80]:
+        pts.append((dict(zip(keys, c)), wide))
     worst = (0.0, None)
     errors = []
     for vals, freqs in pts:
@@ -373,22 +388,37 @@ def replay_tlm(code: str, witness):
     from pyimpspec.circuit.capacitor import Capacitor
     Tlm = get_elements(private=True)["Tlm"]
     kinds = {"o": "open", "s": "short", "f": "finite"}
+    from pyimpspec.circuit.inductor import Inductor
     rng = random.Random(4711)
     worst, msgs = 0.0, []
-    for trial in range(6):
+    freqs = [1.0, 20.0, 1e-2, 3e3, 1e5]
+
+    def finite():
+        kind = rng.choice(("RC", "RL", "C", "R", "L"))
+        parts = []
+        if "R" in kind:
+            parts.append(Resistor(R=10 ** rng.uniform(-1, 2)))
+        if "C" in kind:
+            parts.append(Capacitor(C=10 ** rng.uniform(-4, -2)))
+        if "L" in kind:
+            parts.append(Inductor(L=10 ** rng.uniform(-4, -1)))
+        return Series(parts)
+    for trial in range(16):
         subs = {}
         for key, c in zip(TLM_KEYS, code):
             if kinds[c] == "open":
                 subs[key] = None
             elif kinds[c] == "short":
                 subs[key] = Series([])
-            else:
+            elif trial < 6:
                 subs[key] = Series([Resistor(R=10 ** rng.uniform(-1, 2)), Capacitor(C=10 ** rng.uniform(-4, -2))])
+            else:
+                subs[key] = finite()
         L = 10 ** rng.uniform(-1, 1)
         e = Tlm(**subs)
         e.set_values(L=L)
         res = []
-        for fn in (lambda: e.get_impedances(np.array([1.0, 20.0])), lambda: e.to_sympy(substitute=True)):
+        for fn in (lambda: e.get_impedances(np.array(freqs)), lambda: e.to_sympy(substitute=True)):
             try:
                 res.append((True, fn()))
             except Exception as ex:
@@ -399,7 +429,7 @@ def replay_tlm(code: str, witness):
             if not both:
                 return True, "config %s: numeric %r / symbolic %r" % (code, Zn if not okn else "ok", expr if not oks else "ok")
             continue
-        for fr, zn in zip([1.0, 20.0], Zn):
+        for fr, zn in zip(freqs, Zn):
             try:
                 zs = complex(expr.subs("f", fr))
             except Exception as ex:
